@@ -92,6 +92,9 @@ def make_cases(seed, tier, ndefs=None, ntypes=None, nvals=None):
     kdefs, kpairs = known_pair_defs()
     for d in kdefs:
         U.add(d)
+    fdefs, fcases = fixed_defs_and_cases()
+    for d in fdefs:
+        U.add(d)
     types = []
     seen = set()
     depth = 3 if tier == "quick" else 5
@@ -116,6 +119,7 @@ def make_cases(seed, tier, ndefs=None, ntypes=None, nvals=None):
     counter = [0]
     base_defs = list(U.order)
     chosen = base_defs if tier != "quick" else rng.sample(base_defs, min(14, len(base_defs)))
+    chosen = chosen + [d.key for d in fdefs if d.key not in chosen]      # the hand-picked definitions always get their near-misses
     tindex = {}
     for name in chosen:
         d = U.defs[name]
@@ -149,8 +153,9 @@ def make_cases(seed, tier, ndefs=None, ntypes=None, nvals=None):
                 types.append(tn)
                 pair_only.add(repr(tn))
                 pairs.append((repr(t), repr(tn), kind))
-    # regression corpus: the inputs of every defect found so far (fixed or known), always first
-    corpus = corpus_cases()
+    # regression corpus: the inputs of every defect found so far (fixed or known), always first,
+    # followed by the hand-picked corner cases
+    corpus = corpus_cases() + fcases
     types = [t for (t, _) in corpus] + types
     cases = []
     for i, (t, vals) in enumerate(corpus):
@@ -195,8 +200,16 @@ def make_cases(seed, tier, ndefs=None, ntypes=None, nvals=None):
     # twins: every case that holds a slice reference or an iterator wrapper gets the same case
     # with vectors in their place (C16 compares the two streams byte for byte)
     twins = []
+    for i, (ts, tv, v) in enumerate(nested_slice_cases()):
+        a = Case("N%dv0" % i, "tN%d" % i, ts, v)
+        b = Case("N%dv0o" % i, "tN%do" % i, tv, v)
+        a.cross, b.cross = [], []
+        a.ser_ops_only = b.ser_ops_only = True
+        b.outer_twin_of = a.cid
+        types += [ts, tv]
+        cases += [a, b]
     for c in cases:
-        if ser_only(c.t):
+        if ser_only(c.t) and not getattr(c, "ser_ops_only", False):
             tw = Case(c.cid + "w", c.tid + "w", vecty(U, c.t), normv(U, c.t, c.v))
             tw.twin_of = c.cid
             tw.cross = []
@@ -336,6 +349,45 @@ def liar_defs_and_cases():
     return defs, cases
 
 
+def fixed_defs_and_cases():
+    """hand-picked definitions for corners that random generation reaches rarely: a data-carrying
+    zero-copy enum in the middle of a zero-copy struct (the running offset of AlignHash after the
+    enum), enums whose variants have different sizes, 128-bit const parameters, slices of slices"""
+    u8, u16, u32, u64 = ("prim", "u8"), ("prim", "u16"), ("prim", "u32"), ("prim", "u64")
+    n = lambda x: ("n", x)
+    tag = Def("FxTag", "enum", "zero", ["C"], [], [], [("None", "unit", []), ("Byte", "tuple", [("0", u8)])])
+    outer = Def("FxOuter", "struct", "zero", ["C"], [], [], [("t", ("adt", "FxTag", ())), ("x", u16), ("y", u64)])
+    wide = Def("FxWide", "enum", "zero", ["C"], [], [], [("A", "named", [("a", u8), ("b", u32)]), ("B", "unit", []), ("C", "tuple", [("0", u64)])])
+    mid = Def("FxMid", "struct", "zero", ["C"], [], [], [("p", u8), ("e", ("adt", "FxWide", ())), ("z", u8), ("w", u32)])
+    k128 = Def("FxK", "struct", "deep", [], [], [("N", "u128", 5)], [("x", u16)])
+    ki128 = Def("FxKi", "enum", "none", [], [], [("N", "i128", -3)], [("A", "unit", []), ("B", "tuple", [("0", u8)])])
+    gen = Def("FxGen", "struct", "none", [], ["A"], [], [("a", ("param", "A")), ("n", u8)])
+    defs = [tag, outer, wide, mid, k128, ki128, gen]
+    T = lambda name, *args: ("adt", name, tuple(args))
+    cases = [
+        (T("FxOuter"), [("s", [("t", 1, [n(7)]), n(258), n(1 << 40)]), ("s", [("t", 0, []), n(1), n(2)])]),
+        (("vec", T("FxOuter")), [("s", [("s", [("t", 1, [n(9)]), n(3), n(4)])])]),
+        (T("FxMid"), [("s", [n(1), ("t", 0, [n(2), n(3)]), n(4), n(5)]), ("s", [n(1), ("t", 2, [n(1 << 50)]), n(4), n(5)])]),
+        (("arr", 2, T("FxWide")), [("s", [("t", 1, []), ("t", 0, [n(8), n(9)])])]),
+        (T("FxK"), [("s", [n(77)])]),
+        (T("FxKi"), [("t", 1, [n(5)]), ("t", 0, [])]),
+    ]
+    return defs, cases
+
+
+def nested_slice_cases():
+    """slices whose items hold slices: (slice type, the vector of the same items, value).  Their
+    SerType (Vec of the item type as it is) is not deserializable, so only the two streams are
+    compared (C16): serialization, header included, must not depend on slice vs vector."""
+    u32 = ("prim", "u32")
+    n = lambda x: ("n", x)
+    g = ("adt", "FxGen", (("sref", u32),))
+    return [
+        (("sref", ("sref", u32)), ("vec", ("sref", u32)), ("s", [("s", [n(1), n(2)]), ("s", [])])),
+        (("sref", g), ("vec", g), ("s", [("s", [("s", [n(5)]), n(1)]), ("s", [("s", []), n(2)])])),
+    ]
+
+
 def corpus_cases():
     u8, u32, u64 = ("prim", "u8"), ("prim", "u32"), ("prim", "u64")
     n = lambda x: ("n", x)
@@ -394,7 +446,9 @@ def write_gen_workspace(U, cases, gdir, shards=GEN_SHARDS):
             cx = RustCtx()
             expr = rust_val(U, c.t, c.v, cx)
             st = rust_ty(U, c.t, "'_")
-            dt = rust_ty(U, sertype(U, c.t), "'static")
+            # the type the stream is deserialized as: the SerType, or (when that still holds slices: nested
+            # slices) the same type with vectors everywhere, which has the same hashes
+            dt = rust_ty(U, sertype(U, c.t) if not ser_only(sertype(U, c.t)) else vecty(U, c.t), "'static")
             crosses = ""
             for (tidu, kind) in getattr(c, "cross", []):
                 tu = type_of_tid[tidu]
@@ -448,7 +502,7 @@ def shards_of_cases(cases, n):
     by_tid = {}
     for c in cases:
         # a vector twin is compiled in the same crate as its original (type names include the crate name)
-        by_tid.setdefault(c.tid.rstrip("w"), []).append(c)
+        by_tid.setdefault(c.tid.rstrip("w").rstrip("o"), []).append(c)
     tids = list(by_tid.keys())
     parts = [[] for _ in range(n)]
     for i, tid in enumerate(tids):
@@ -813,7 +867,7 @@ def run_campaign(tier):
         if not si and not getattr(x, "twin_of", None) and (tier != "quick" or x.cid.endswith("v0")):
             ops.append("load")
         ops.append("tags:" + ",".join(str(n) for n in c.tagc[x.cid]))
-        if getattr(x, "liar", False):
+        if getattr(x, "liar", False) or getattr(x, "ser_ops_only", False):
             return ["ser", "schema"]
         if getattr(x, "pair_only", False):
             return ["hdr", "ser", "feed", "cross", "full", "eps:0", "schema:noagain" if si else "schema", "dty"]
@@ -856,7 +910,7 @@ def run_campaign(tier):
                 cr.append("cross:%s:%s:%s:%s" % (b, tidu, hu[0], hu[1]))
         if (x.cid, "load") in c.iobs:
             cr.append("load")
-        if getattr(x, "liar", False):
+        if getattr(x, "liar", False) or getattr(x, "ser_ops_only", False):
             return ["tinfo", "ser", "schema"]
         if getattr(x, "pair_only", False):
             return cr + ["tinfo", "ser", "feed", "full", "eps:" + b, "schema"] + (["dty"] if (x.cid, "dty") in c.iobs else [])
